@@ -9,6 +9,10 @@ UNIT = dict(
     fns={
         "CircuitState::from_u8": dict(),
         "Circuit::state": dict(),
+        "Circuit::metrics": dict(rules=[
+            ("R14", "failure_rate", ["total_calls", "failure_count"], "vx_leafm_"),
+            ("R14", "slow_call_rate", ["total_calls", "slow_call_count"], "vx_leafm_"),
+        ]),
         "Circuit::transition_to": dict(rules=[
             ("inject", r"self\.call_records\.clear\(\)", "after", "proof { gh.do_clear(); }"),
         ]),
@@ -42,6 +46,20 @@ UNIT = dict(
             ("R14", "slow_call_rate", ["slow_call_count", "total_count"]),
             ("sub", "R14-cmp", r"(failure_rate|slow_call_rate)\s*>=\s*(config\.\w+)", r"vx_f64_ge(\1, \2)", 2),
         ]),
+        "Circuit::record_success": dict(rules=[
+            ("R10", 1),
+            ("inject", None, "start", "broadcast use lemma_push_drop_last;"),
+            ("addarg", ["transition_to", "evaluate_window"], CLKGH),
+            ("addarg", ["cleanup_old_records"], "clk"),
+            ("inject", r"self\.total_count \+= 1;", "after", "proof { gh.do_push(Outcome { fail: false, slow: is_slow }); lemma_push(old(gh).hist, Outcome { fail: false, slow: is_slow }); }"),
+        ]),
+        "Circuit::record_failure": dict(rules=[
+            ("R10", 1),
+            ("inject", None, "start", "broadcast use lemma_push_drop_last;"),
+            ("addarg", ["transition_to", "evaluate_window"], CLKGH),
+            ("addarg", ["cleanup_old_records"], "clk"),
+            ("inject", r"self\.total_count \+= 1;", "after", "proof { gh.do_push(Outcome { fail: true, slow: is_slow }); lemma_push(old(gh).hist, Outcome { fail: true, slow: is_slow }); }"),
+        ]),
         "Circuit::try_acquire": dict(rules=[
             ("addarg", ["transition_to"], CLKGH),
             ("inject", r"self\.transition_to\(CircuitState::HalfOpen", "after", "proof { gh.do_admit(); }"),
@@ -49,7 +67,10 @@ UNIT = dict(
         ]),
         "Circuit::force_open": dict(rules=[("addarg", ["transition_to"], CLKGH)]),
         "Circuit::force_closed": dict(rules=[("addarg", ["transition_to"], CLKGH)]),
-        "Circuit::reset": dict(rules=[("addarg", ["transition_to"], CLKGH)]),
+        "Circuit::reset": dict(rules=[("addarg", ["transition_to"], CLKGH),
+            # ghost history follows the executable window: cleared exactly when the code has emptied it
+            ("inject", None, "end", "proof { if self.total_count == 0 && self.failure_count == 0 && self.slow_call_count == 0 { gh.do_clear(); } }"),
+        ]),
     },
     types=[
         ("enum", "CircuitState", "circuit"),
